@@ -825,6 +825,23 @@ fn load_factor() -> f64 {
     (load / cores).clamp(1.0, 4.0)
 }
 
+/// Requests that only misbehave in a state built by earlier requests: every read method over the universe after every
+/// history of the chain-coherence alphabet (multi-transaction blocks, failing / refused / duplicated transactions,
+/// drains, empty blocks, commit, reorg). Worker id `C09H`.
+pub fn history_scenarios(tier: &str) -> Vec<crate::hist::Scenario> {
+    let mut v = super::c06::scenarios(tier);
+    for sc in v.iter_mut() {
+        sc.name = "reads-after-histories".into();
+        sc.opts = crate::explore::Opts::new("C09", "reads-after-histories");
+        sc.opts.nf_compare = false;
+        sc.opts.err_unchanged = false;
+        sc.opts.check_expect = false;
+        sc.opts.observe_only = true;
+        sc.bounds.depth = if tier == "thorough" { 4 } else { 3 };
+    }
+    v
+}
+
 pub fn run(tier: &str, seed: u64) -> i32 {
     let t0 = Instant::now();
     crate::inst::cleanup_stale_scratch();
@@ -932,6 +949,22 @@ pub fn run(tier: &str, seed: u64) -> i32 {
     }
     let (transport_cases, transport_bad, transport_errors) = transport_pass();
     errors.extend(transport_errors);
+    // reads after histories (hist workers)
+    let hp = crate::hist::ParentCfg {
+        property: "C09H".into(), tier: tier.to_string(), level: "exploration".into(), nworkers: 16, budget_s: if tier == "thorough" { 240.0 } else { 14.0 }, seed, validate_total: 0,
+        rule: String::new(), assumptions: vec![], extra: vec![], groups: vec!["regtest/true".into()], extra_pass: std::cell::RefCell::new(None),
+    };
+    let (hstats, herrors) = crate::hist::spawn_workers(&hp);
+    errors.extend(herrors);
+    let mut history_paths = 0u64;
+    let mut history_complete = true;
+    let mut history_violations: Vec<Violation> = Vec::new();
+    for (_, st) in hstats {
+        history_paths += st.paths;
+        history_complete &= st.complete;
+        errors.extend(st.machinery_errors.iter().cloned());
+        history_violations.extend(st.violations.into_iter().take(5));
+    }
     crate::inst::cleanup_stale_scratch();
     let mut vs: Vec<Violation> = Vec::new();
     for (what, d) in &transport_bad {
@@ -940,6 +973,7 @@ pub fn run(tier: &str, seed: u64) -> i32 {
     for (id, what, d) in &merged.panics {
         vs.push(Violation { property: "C09".into(), kind: "panic".into(), scenario: "requests".into(), start: "".into(), path: vec![format!("case {}", id), what.clone()], steps: vec![], detail: d.clone() });
     }
+    vs.extend(history_violations);
     for (id, what, d) in &merged.wedges {
         vs.push(Violation { property: "C09".into(), kind: "wedged".into(), scenario: "requests".into(), start: "".into(), path: vec![format!("case {}", id), what.clone()], steps: vec![], detail: d.clone() });
     }
@@ -949,7 +983,8 @@ pub fn run(tier: &str, seed: u64) -> i32 {
     let (new, known) = crate::evidence::triage("C09", vs);
     let mut ev = Evidence::new("C09", tier, seed, "exploration");
     ev.coverage = json!({
-        "evaluations": parent_done.max(merged.cases), "distinct_nontrivial": total_cases,
+        "evaluations": parent_done.max(merged.cases) + history_paths, "distinct_nontrivial": total_cases,
+        "reads_after_histories": {"histories": history_paths, "complete": history_complete, "what": "every read method over the universe after every history of the chain-coherence alphabet (depth 3, thorough 4): none may panic"},
         "rule": "request grid: for every registered method a valid default request and every request with one parameter (thorough: also two) deviating over a fixed menu (boundary integers, negative, float, empty / odd / non-hex / huge strings, every base64 prefix, truncated frame, bombs, null / bool / array / object, missing), in 3 (quick) / 6 (thorough) engine states; code paths: every byte string of length <= 2 (quick: all of length <= 1 and a rotating 1/16 slice of length 2) as init code, as runtime code, as call data and as input to each custom precompile; ABI grids of the custom precompiles directly and through a contract; 0xfc / 0xfd with complete override sets. Each case runs on the real dispatch table in a watched worker process; after every state-building case, after every panic and every 512 cases a liveness round (eth_blockNumber, brc20_clearCaches, brc20_mine, eth_getBlockByNumber) must succeed. distinct = enumerated cases",
         "samples": merged.samples.iter().take(8).collect::<Vec<_>>(),
         "cases_enumerated": total_cases, "answered_ok": merged.ok, "answered_error": merged.errors, "panics": merged.panics.len(), "wedges": merged.wedges.len(), "hangs": hangs.len(),
